@@ -233,7 +233,7 @@ impl Kvs2 {
 //@ prefix #[verifier::exec_allows_no_decreases_clause]
 //@ rewrite X23 `fn write(&self, mut batch: WriteBatch) -> Result<(), SError>` => `fn write(&self, state: &mut KvState, mut batch: WriteBatch) -> Result<(), SError>`
 //@ rewrite-re X16 `(?s)let \(mut wait_guard, memtable, log, seq_no\) = \{.*?\n        \};` => `let (mut wait_guard, memtable, log, seq_no) = write_sequence(&self.inner, state, &mut batch);\n        self.between_sections(state);`
-//@ rewrite-re X16 `(?s)let mut state = self\.state\.lock\(\)\.unwrap\(\);\s*while !wait_guard\.is_head\(\).*\n        result\n` => `write_publish(&self.inner, state, wait_guard, seq_no, result)\n`
+//@ rewrite-re X16 `(?s)(let result = self\.log_and_apply\([^;]*\);\n)(.*?)[ \t]*let mut state = self\.state\.lock\(\)\.unwrap\(\);.*\n        result\n` => `\1\2        write_publish(&self.inner, state, wait_guard, seq_no, result)\n`
 //@ rewrite-re? X18 `(?m)^\s*drop\((memtable|log)\);\n` => ``
 //@ rewrite-re X24 `self\.log_and_apply\((.+?)\)` => `self.log_and_apply(\1, Ghost(seq_no))`
 //@ pre <<
